@@ -966,6 +966,11 @@ impl SctpTransport {
         self.inner.send_dcep_open(dc).await
     }
 
+    /// Synchronous form of `send_dcep_open` (DCEP never waits for buffer credit).
+    pub fn queue_dcep_open(&self, dc: &DataChannel) -> Result<()> {
+        self.inner.queue_dcep_open(dc)
+    }
+
     pub async fn close_data_channel(&self, channel_id: u16) -> Result<()> {
         self.inner.close_data_channel(channel_id).await
     }
@@ -4070,6 +4075,33 @@ impl SctpInner {
     }
 
     pub async fn send_dcep_open(&self, dc: &DataChannel) -> Result<()> {
+        let payload = Self::dcep_open_message(dc);
+        self.send_data_raw(dc.id, DATA_CHANNEL_PPID_DCEP, &payload)
+            .await
+    }
+
+    /// Queues the DCEP OPEN of `dc` at once, without suspending: whatever the caller
+    /// submits on the channel afterwards is queued behind it.
+    pub fn queue_dcep_open(&self, dc: &DataChannel) -> Result<()> {
+        if *self.state.lock() == SctpState::Closed {
+            return Err(anyhow::anyhow!("sctp association closed"));
+        }
+        let payload = Self::dcep_open_message(dc);
+        let max_payload_size = dc.max_payload_size.min(DEFAULT_MAX_PAYLOAD_SIZE);
+        self.enqueue_message(
+            dc.id,
+            DATA_CHANNEL_PPID_DCEP,
+            &payload,
+            0x04,
+            0,
+            max_payload_size,
+            None,
+            None,
+        );
+        Ok(())
+    }
+
+    fn dcep_open_message(dc: &DataChannel) -> Vec<u8> {
         let channel_type = if dc.ordered {
             if dc.max_retransmits.is_some() {
                 0x01 // DATA_CHANNEL_PARTIAL_RELIABLE_REXMIT
@@ -4105,9 +4137,7 @@ impl SctpInner {
             protocol: dc.protocol.clone(),
         };
 
-        let payload = open.marshal();
-        self.send_data_raw(dc.id, DATA_CHANNEL_PPID_DCEP, &payload)
-            .await
+        open.marshal()
     }
 
     pub async fn send_dcep_ack(&self, channel_id: u16) -> Result<()> {
